@@ -276,6 +276,14 @@ def reject_text(kind, state_vars, k):
         return ("metadynamics {\n  name rjb%d\n  colvars %s\n  hillWeight zero\n  hillWidth 2.0\n  newHillFrequency 2\n}\n" % (k, v), ["rjb%d" % k])
     if kind == "bias_nocv":
         return ("harmonic {\n  name rjb%d\n  colvars %s nonexistent\n  centers 1.0 1.0\n  forceConstant 1.0\n}\n" % (k, v), ["rjb%d" % k])
+    if kind == "bias_two_faulty":
+        # two faulty blocks of different types in ONE configuration: the first is refused for an unknown keyword, the
+        # second (handled later by the parser, with the first error still pending) for a setting its init() refuses
+        second = [("harmonicWalls {\n  name rjb%db\n  colvars %s\n  lowerWalls 5.0\n  upperWalls 1.0\n  forceConstant 2.0\n}\n" % (k, v)),
+                  ("metadynamics {\n  name rjb%db\n  colvars %s\n  hillWidth 2.0\n  newHillFrequency 2\n}\n" % (k, v)),
+                  ("linear {\n  name rjb%db\n  colvars %s\n  centers %s\n  forceConstant -2.0\n}\n" % (k, v, CENTER.get(v, "1.0")))][(k // max(1, len(state_vars))) % 3]
+        return ("harmonic {\n  name rjb%da\n  colvars %s\n  centers %s\n  forceConstant 1.0\n  notAKeyword on\n}\n" % (k, v, CENTER.get(v, "1.0")) + second,
+                ["rjb%da" % k, "rjb%db" % k])
     if kind == "bias_deps":
         # ABF on a variable without total forces: fails while dependencies are being resolved
         return ("abf {\n  name rjb%d\n  colvars %s\n  fullSamples 2\n}\n" % (k, v), ["rjb%d" % k])
@@ -283,7 +291,7 @@ def reject_text(kind, state_vars, k):
 
 
 REJ_VAR = ["var_badkey", "var_badvalue", "var_badcvc", "var_badatom", "var_legacywall"]
-REJ_BIAS = ["bias_badkey", "bias_badvalue", "bias_nocv", "bias_deps"]
+REJ_BIAS = ["bias_badkey", "bias_badvalue", "bias_nocv", "bias_deps", "bias_two_faulty"]
 REJ_ATOMS = {"var_badkey": [1, 2, 23, 4, 24], "var_legacywall": [1, 2, 23, 4, 24], "var_badvalue": [5, 23, 6], "var_badcvc": [3, 24, 8, 1, 2], "var_badatom": [2, 23, 4]}
 
 
@@ -447,6 +455,15 @@ def random_program(rng, length):
                         k = nrej
                     else:
                         k = rng.choice(cand)
+                elif kind == "bias_two_faulty":
+                    cand = [i for i, v in enumerate(m.vars) if VARS[v]["scalar"]]
+                    if not cand:
+                        kind = "bias_badkey"
+                        k = nrej
+                    else:
+                        # k selects both the variable (k % len) and the second block (k % 3)
+                        i = rng.choice(cand)
+                        k = i + len(m.vars) * rng.randrange(3)
                 else:
                     k = rng.randrange(len(m.vars))
                 cmd = ("reject", kind, k)
